@@ -179,6 +179,14 @@ where
 		t.num_inputs = lock_inputs.len();
 		for id in lock_inputs {
 			let mut coin = batch.get(&id.0, &id.1).unwrap();
+			// an input that is already reserved by another transaction (or by an
+			// earlier lock of this same slate) or already spent must not be reserved again
+			if coin.status == OutputStatus::Locked || coin.status == OutputStatus::Spent {
+				return Err(Error::GenericError(format!(
+					"Output {} is already {}, transaction {} cannot reserve it",
+					coin.key_id, coin.status, slate_id
+				)));
+			}
 			coin.tx_log_entry = Some(log_id);
 			amount_debited += coin.value;
 			batch.lock_output(&mut coin)?;
